@@ -1,0 +1,49 @@
+//go:build verif
+
+package table
+
+import (
+	"os"
+
+	"github.com/lindb/lindb/pkg/bufioutil"
+	"github.com/lindb/lindb/pkg/fileutil"
+)
+
+// Simulation hook (build tag verif).
+
+type verifWriter struct {
+	bufioutil.BufioWriter
+	name string
+	pre  func(op, path string)
+}
+
+func (w *verifWriter) Write(b []byte) (int, error) { w.pre("write", w.name); return w.BufioWriter.Write(b) }
+func (w *verifWriter) Sync() error                 { w.pre("sync", w.name); return w.BufioWriter.Sync() }
+func (w *verifWriter) Flush() error                { w.pre("flush", w.name); return w.BufioWriter.Flush() }
+func (w *verifWriter) Close() error                { w.pre("close", w.name); return w.BufioWriter.Close() }
+
+// VerifSetFS wraps the table writer / mapping seams with pre(op, path); nil restores them.
+func VerifSetFS(pre func(op, path string)) {
+	if pre == nil {
+		newBufioWriterFunc = bufioutil.NewBufioStreamWriter
+		mapFunc = fileutil.Map
+		unmapFunc = fileutil.Unmap
+		return
+	}
+	newBufioWriterFunc = func(fileName string) (bufioutil.BufioWriter, error) {
+		pre("create", fileName)
+		w, err := bufioutil.NewBufioStreamWriter(fileName)
+		if err != nil {
+			return nil, err
+		}
+		return &verifWriter{BufioWriter: w, name: fileName, pre: pre}, nil
+	}
+	mapFunc = func(f *os.File) ([]byte, error) {
+		pre("map", f.Name())
+		return fileutil.Map(f)
+	}
+	unmapFunc = func(f *os.File, data []byte) error {
+		pre("unmap", f.Name())
+		return fileutil.Unmap(f, data)
+	}
+}
